@@ -43,8 +43,8 @@ def parseDDump (s : String) : Option (List EntryD) :=
     | _ => none
 
 def fmtNode (n : Node) : String :=
-  let v := if n.hasVal && hasFlag n.flags FLAG_CLASS31 then toString n.ival else "-"
-  s!"{n.desc}/{n.flags}/{n.enc.type.code}/{n.enc.nbits}/{n.enc.scale}/{n.enc.ref}/{n.enc.afNbits}/{if n.hasVal then 1 else 0}/{v}"
+  let v := if n.hasVal && n.flags.class31 then toString n.ival else "-"
+  s!"{n.desc}/{n.flags.toNat}/{n.enc.type.code}/{n.enc.nbits}/{n.enc.scale}/{n.enc.ref}/{n.enc.afNbits}/{if n.hasVal then 1 else 0}/{v}"
 
 def fmtNodes (ns : List Node) : String :=
   if ns.isEmpty then "-" else " ".intercalate (ns.map fmtNode)
@@ -95,7 +95,7 @@ def stepTemplate (st : TmplSt) (toks : List String) : Option (TmplSt × String) 
         match s.nodes[i]? with
         | some n =>
           if class31Locked n then some (st, "-1")
-          else if !(hasFlag n.flags FLAG_CLASS31) || !n.hasVal || v < 0 || v ≥ 2 ^ n.enc.nbits.toNat then some (st, "unsupported")
+          else if !n.flags.class31 || !n.hasVal || v < 0 || v ≥ 2 ^ n.enc.nbits.toNat then some (st, "unsupported")
           else
             let s' : Subset := { nodes := s.nodes.set i { n with ival := v } }
             some ({ st with subsets := st.subsets.set! p s' }, "1")
@@ -109,7 +109,7 @@ def stepTemplate (st : TmplSt) (toks : List String) : Option (TmplSt × String) 
       | some s =>
         if vs.isEmpty then some (st, "bad-op") else
         let step := fun (acc : List Node × Nat) (n : Node) =>
-          if isClass31Factor n.desc && hasFlag n.flags FLAG_CLASS31 && !n.expanded && !n.skipped && n.hasVal then
+          if isClass31Factor n.desc && n.flags.class31 && !n.expanded && !n.skipped && n.hasVal then
             let v := vs.getD (acc.2 % vs.length) 0
             let v' := v % 2 ^ n.enc.nbits.toNat
             (acc.1 ++ [{ n with ival := v' }], acc.2 + 1)
